@@ -16,9 +16,10 @@ F64 = torch.float64
 
 def name_of(cfg):
     k = cfg['kfac']
-    return (f"dp{cfg['dp']}xmp{cfg['mp']}/bias={cfg.get('bias', True)}/kl="
-            f"{k['kl_clip']}/cap={k.get('allreduce_bucket_cap_mb', 25.0)}/"
-            f"F={k.get('factor_update_steps', 1)}/I="
+    return (f"{cfg.get('gmodel', 'gpt2l')}/dp{cfg['dp']}xmp{cfg['mp']}/bias="
+            f"{cfg.get('bias', True)}/kl={k['kl_clip']}/cap="
+            f"{k.get('allreduce_bucket_cap_mb', 25.0)}/F="
+            f"{k.get('factor_update_steps', 1)}/I="
             f"{k.get('inv_update_steps', 1)}/steps={len(cfg['history'])}")
 
 
@@ -222,15 +223,17 @@ def configs(thorough, seed):
     decomps = [(1, 1), (2, 1), (1, 2), (2, 2), (1, 3)]
     if thorough:
         decomps += [(3, 2), (2, 3), (1, 6)]
-    for (dp, mp), bias, kl, cap, (f, inv) in itertools.product(
+    for (dp, mp), bias, kl, cap, (f, inv), gm in itertools.product(
             decomps, (True, False), (1e30, 1e-3, None), (0.0, 25.0),
-            ((1, 1), (1, 2), (2, 2))):
+            ((1, 1), (1, 2), (2, 2)), ('gpt2l', 'gpt3l')):
+        if gm == 'gpt3l' and ((f, inv) == (1, 2) or (cap == 0.0 and bias)):
+            continue
         kk = dict(damping=0.05, factor_decay=0.5, kl_clip=kl, lr=0.1,
                   allreduce_bucket_cap_mb=cap, factor_update_steps=f,
                   inv_update_steps=inv)
         out.append({'dp': dp, 'mp': mp, 'bias': bias, 'batch': 2,
                     'seed': seed, 'kfac': kk, 'loss_mult': 4.0,
-                    'history': [['train']] * 3})
+                    'gmodel': gm, 'history': [['train']] * 3})
     return out
 
 
